@@ -317,6 +317,15 @@ void Hash2KeysSetOf<THasher>::put(const void* key1, int key2)
 template <class THasher>
 bool Hash2KeysSetOf<THasher>::putIfNotPresent(const void* key1, int key2)
 {
+    // Apply 4 load factor to find threshold.
+    XMLSize_t threshold = fHashModulus * 4;
+
+    // If we've grown too big, expand the table and rehash. This has to
+    // happen before the bucket is computed, or the new element would be
+    // linked into the bucket of the old modulus and never be found again.
+    if (fCount >= threshold)
+        rehash();
+
     // First see if the key exists already
     XMLSize_t hashVal;
     Hash2KeysSetBucketElem* newBucket = findBucketElem(key1, key2, hashVal);
@@ -327,13 +336,6 @@ bool Hash2KeysSetOf<THasher>::putIfNotPresent(const void* key1, int key2)
     //
     if (newBucket)
         return false;
-
-    // Apply 4 load factor to find threshold.
-    XMLSize_t threshold = fHashModulus * 4;
-
-    // If we've grown too big, expand the table and rehash.
-    if (fCount >= threshold)
-        rehash();
 
     if(fAvailable==0)
         newBucket = (Hash2KeysSetBucketElem*)fMemoryManager->allocate(sizeof(Hash2KeysSetBucketElem));
